@@ -12,7 +12,7 @@ from typing import Any, Dict, List, Optional, Tuple
 from icv import tlc
 
 DEF_SWITCHES = ["SwNoOwnEmptyInvList", "SwKeepBasePre", "SwSnapAnyChecker", "SwDropForeign", "SwWrapByLast",
-                "SwRebindWrapped", "SwShadow"]
+                "SwRebindWrapped", "SwShareGroups", "SwShadow"]
 DEF_ALL_OFF = {n: False for n in DEF_SWITCHES}
 DEF_INVARIANTS = ["EffPreEqRef", "EffPostEqRef", "EffSnapEqRef", "EffInvEqRef", "RejectedExactly", "NoSharedInvList",
                   "SingleChecker", "ForeignKept", "RegisteredOnce"]
@@ -23,7 +23,7 @@ def def_cfg(switches: Dict[str, bool], invariants: List[str], properties: List[s
     lines = ["SPECIFICATION DSpec", "CONSTANTS", "  HistSpace <- MCHistSpace"]
     for n in DEF_SWITCHES:
         lines.append("  {} = {}".format(n, "TRUE" if switches.get(n) else "FALSE"))
-    for inv in invariants + (["PrintStep"] if emit else []):
+    for inv in invariants + (["PrintStep", "PrintPostHoc"] if emit else []):
         lines.append("INVARIANT " + inv)
     for pr in properties:
         lines.append("PROPERTY " + pr)
@@ -38,6 +38,7 @@ def model_check_def(hists: List[dict], switches: Dict[str, bool], invariants: Op
         hfile = os.path.join(wd, "hists.ndjson")
         with open(hfile, "w") as fh:
             for h in hists:
+                h.setdefault("posthoc", [])
                 fh.write(json.dumps(h) + "\n")
         cfg = def_cfg(switches, DEF_INVARIANTS if invariants is None else invariants,
                       DEF_PROPERTIES if properties is None else properties, emit)
@@ -150,6 +151,22 @@ class DefRuntime:
         self.classes[k] = cls
         self.ok[k] = True
         return "ok"
+
+    def run_posthoc(self, ph: dict) -> str:
+        """K.name = icontract.<decorator>(...)(K.name)"""
+        ic = self.ic
+        cls = self.classes[ph["k"]]
+        d = ph["d"]
+        try:
+            fn = getattr(cls, ph["name"])
+            if d["d"] == "require":
+                new = ic.require(self.cond(d["c"], "pre"))(fn)
+            else:
+                new = ic.ensure(self.cond(d["c"], "post"))(fn)
+            setattr(cls, ph["name"], new)
+            return "ok"
+        except (AssertionError, TypeError, ValueError) as exc:
+            return type(exc).__name__
 
     # projection -----------------------------------------------------------------------------------
     def _ords(self, items: Any) -> List[int]:
@@ -313,6 +330,30 @@ def replay_history(hist: dict, expected: Dict[int, dict], ic: Any) -> List[dict]
                 divergences.append({"step": k, "clause": "def.registered_count", "exp": list(exp["regd"]), "act": reg})
             if divergences:
                 break
+        # post-hoc decorations of members of the classes created above
+        nst = len(hist["cls"])
+        if not divergences and all(rt.ok.get(k) for k in range(1, nst + 1)):
+            for i, ph in enumerate(hist.get("posthoc", []), 1):
+                outcome = rt.run_posthoc(ph)
+                exp = expected.get(nst + i)
+                if exp is None:
+                    divergences.append({"step": nst + i, "clause": "proto.no_expected_step", "exp": None, "act": outcome})
+                    break
+                for j in range(1, nst + 1):
+                    act = rt.view(j)
+                    ex = normalise_model_view(exp["views"][j - 1], hist["names"])
+                    if act != ex:
+                        own = (j == ph["k"]) or (ph["k"] in hist["cls"][j - 1]["mro"])
+                        divergences.append({"step": nst + i, "cls": j,
+                                            "clause": _view_clause(ex, act, j, j if own else j + 1), "exp": ex, "act": act})
+                if "lids" in exp:
+                    act_l = _partition([rt.member_list_ids(j, nm) for j in range(1, nst + 1) for nm in hist["names"]])
+                    exp_l = _partition([list((exp["lids"][j - 1] or {}).get(nm, [])) for j in range(1, nst + 1)
+                                        for nm in hist["names"]])
+                    if act_l != exp_l and not divergences:
+                        divergences.append({"step": nst + i, "clause": "def.shared_mutable_list", "exp": exp_l, "act": act_l})
+                if divergences:
+                    break
     finally:
         ic._metaclass._register_for_hypothesis = orig
     return divergences
